@@ -6,6 +6,7 @@ ENGINE = {'name': 'caddyfile',
  'case_type': 'c15case',
  'check': 'check',
  'imports': ['From L4.model Require Import Caddyfile CaddyfileLeaves.'],
+ 'shard': 40,
  'n_quick': 300,
  'n_thorough': 4000,
  'timeout': 900,
@@ -25,11 +26,8 @@ ENGINE = {'name': 'caddyfile',
  'modelled': ['layer4/caddyfile.go: ParseCaddyfileNestedRoutes, ParseCaddyfileNestedHandlers, ParseCaddyfileNestedMatcherSet, SetModuleNameInline, '
               'parseLayer4 (several global blocks); Server / ListenerWrapper / subroute / tee / not UnmarshalCaddyfile; block structure of the token '
               'stream (what Next/NextArg/NextBlock/NextSegment walk)',
-              'leaf UnmarshalCaddyfile + JSON encoding modelled AND leaf equation proved (parse (print x) = json x): matchers ssh xmpp postgres proxy_protocol socks4 socks5 regexp clock wireguard winbox '
-              'remote_ip local_ip dns rdp openvpn, tls and quic (sets of sni / alpn / remote_ip incl. "!" and private_ranges / local_ip); handlers echo proxy_protocol throttle (integral rates) socks5 proxy (upstream incl. tls_* options '
-              'except trust pools, health checks, load balancing, six selection policies)',
-              'not modelled (oracle only): http matcher, tls handler (its connection_policy match sets use the same generator as the tls matcher), decimal throttle rates, tls_trust_pool; Caddy lexer, Dispenser cursor, '
-              'error texts, module loader'],
+              'leaf UnmarshalCaddyfile + JSON encoding modelled AND leaf equation proved (parse (print x) = json x): matchers ssh xmpp postgres proxy_protocol socks4 socks5 regexp clock wireguard winbox remote_ip local_ip dns rdp openvpn, tls and quic (sets of sni / alpn / remote_ip incl. "!" and private_ranges / local_ip), http (a set of host / path / method and not over them); handlers echo proxy_protocol throttle (integral and canonical decimal rates) socks5 proxy (upstream incl. tls_* options and tls_trust_pool inline, health checks, load balancing, six selection policies) tls (connection_policy: alpn ciphers curves default_sni drop fallback_sni protocols match)',
+              'abstract / oracle only: request matchers other than host path method not inside http (Caddy parsers; repeated request matchers are merged by Caddy, the model covers distinct names), cert_selection / client_auth / insecure_secrets_log of a connection policy, CA pool modules other than inline, deprecated tls_trusted_ca_*, exponent-form rates; Caddy lexer, Dispenser cursor, error texts, module loader'],
  'assumptions': ['adapt_structural is proved for configurations satisfying config_ok (distinct set names, references defined, non-empty named sets, '
                  'distinct matcher names per set, durations within int64, leaf domains); the checker recomputes config_ok on every case',
-                 'durations are single-component <integer><unit>; float options are integral literals in the model']}
+                 'durations are single-component <integer><unit>; float options are unsigned integer literals or canonical decimals <int>.<frac> (at most 9+6 digits) whose strconv.ParseFloat / encoding/json round trip is assumed to be the literal itself']}
